@@ -190,8 +190,16 @@ def run_conc(vh, wd, scenarios, seed, name):
         lines_out += lines
         if p.returncode == 0:
             break
-        if p.returncode != 3 or not lines:
+        died = p.returncode not in (0, 3) and any(m in p.stderr for m in ("fatal error:", "panic:", "SIGSEGV", "unexpected signal"))
+        if (p.returncode != 3 and not died) or not lines:
             raise vf.Infra(f"vh c15 failed rc={p.returncode}: {p.stderr[-2500:]}")
+        if died:
+            # the library killed the process while the tasks of a scenario were running: recorded for that trace
+            last = json.loads(lines[-1])
+            reason = [ln for ln in p.stderr.split("\n") if any(m in ln for m in ("fatal error:", "panic:", "SIGSEGV", "unexpected signal"))][0][:300]
+            fatal = json.dumps({"t": last["t"], "i": last["i"] + 1, "ev": "Fatal", "msg": reason}, separators=(",", ":"))
+            lines.append(fatal)
+            lines_out.append(fatal)
         # rc 3: a Hang was reported; continue after that scenario
         restarts += 1
         if restarts > 20:
